@@ -22,7 +22,7 @@ def main():
     # Lean: every Props module and every driver exe
     props = sorted(f[:-5] for f in os.listdir(os.path.join(vlib.LEAN, "WaVerif", "Props")) if f.endswith(".lean"))
     exes = re.findall(r'name = "(wamodel_\w+)"', open(os.path.join(vlib.LEAN, "lakefile.toml")).read())
-    targets = ["WaVerif.Props." + p for p in props] + exes
+    targets = ["WaVerif.Base.AuditCmd"] + ["WaVerif.Props." + p for p in props] + exes
     rc, o = vlib.sh(["lake", "build"] + targets, cwd=vlib.LEAN, timeout=6000)
     print("[setup] lake build %d targets rc=%d" % (len(targets), rc))
     if rc != 0:
